@@ -6,6 +6,7 @@ def Op.target : Op → Nat
   | .start m _ _ _ => m | .started m => m | .startedCb m => m | .stop m => m | .stopped m => m | .stoppedCb m => m
   | .addH m _ => m | .addSw m _ => m | .addDl m _ => m | .fireDl m _ => m | .turnEnd m => m
   | .cfgPlay m _ => m | .cfgSub m _ _ => m | .addTm m _ => m | .fireTm m _ => m | .remTm m _ => m
+  | .ctlCall m _ => m
 
 def evIdx : Ev → Nat
   | .ws => 0 | .sg => 1 | .sd => 2 | .wp => 3 | .pg => 4 | .pd => 5
@@ -265,6 +266,18 @@ theorem cleanup_inv (st : St) (m : Nat) (hI : Inv st) : Inv (cleanup st m) := by
       · rw [upd_other _ _ _ _ hm]; exact hturn e he.1 hc
   · exact ⟨hexcl, hstop, hmem, hsorted, hcfg, hlife, hturn⟩
 
+theorem cleanup_other (st : St) (m i : Nat) (h : i ≠ m) : (cleanup st m).modes i = st.modes i := by
+  unfold cleanup; split
+  · simp [upd, h]
+  · rfl
+
+theorem cleanup_prio (st : St) (m i : Nat) : ((cleanup st m).modes i).prio = (st.modes i).prio := by
+  unfold cleanup; split
+  · by_cases h : i = m
+    · subst h; simp
+    · simp [upd, h]
+  · rfl
+
 theorem cleanup_flags (st : St) (m m' : Nat) :
     ((cleanup st m).modes m').active = (st.modes m').active ∧ ((cleanup st m).modes m').starting = (st.modes m').starting ∧
     ((cleanup st m).modes m').stopping = (st.modes m').stopping ∧ ((cleanup st m).modes m').pStoppedCb = (st.modes m').pStoppedCb := by
@@ -517,6 +530,9 @@ theorem step_inv (st st' : St) (op : Op) (hI : Inv st) (h : step st op = some st
     simp only [step, Option.some.injEq] at h
     cases h
     exact ⟨hexcl, hstop, hmem, hsorted, hcfg, hlife, hturn⟩
+  | ctlCall m dl =>
+    simp only [step] at h
+    split at h <;> cases h <;> exact ⟨hexcl, hstop, hmem, hsorted, hcfg, hlife, hturn⟩
 
 theorem run_inv (st : St) (ops : List Op) (hI : Inv st) : Inv (run st ops) := by
   induction ops generalizing st with
@@ -663,6 +679,13 @@ theorem step_frame (st st' : St) (op : Op) (h : step st op = some st') :
     simp only [step, Option.some.injEq] at h
     cases h
     exact ⟨rfl, rfl, rfl⟩
+  | ctlCall m dl =>
+    simp only [step] at h
+    split at h
+    · cases h
+      refine ⟨rfl, rfl, ?_⟩
+      cases dl <;> simp [Op.target, ctlEnt, List.filter_append]
+    · cases h; exact ⟨rfl, rfl, rfl⟩
 
 theorem run_frame (st : St) (ops : List Op) (m : Nat) (ht : ∀ op ∈ ops, op.target = m) :
     (run st ops).bus.filter (fun e => e.owner != m) = st.bus.filter (fun e => e.owner != m) ∧
@@ -852,6 +875,9 @@ theorem step_inv2 (st st' : St) (op : Op) (h2 : Inv2 st) (h : step st op = some 
     simp only [step, Option.some.injEq] at h
     cases h
     exact ⟨hfx, fun e he => htm e (List.mem_filter.mp he).1⟩
+  | ctlCall m dl =>
+    simp only [step] at h
+    split at h <;> cases h <;> exact ⟨hfx, htm⟩
 
 theorem run_inv2 (st : St) (ops : List Op) (h2 : Inv2 st) : Inv2 (run st ops) := by
   induction ops generalizing st with
@@ -945,6 +971,9 @@ theorem step_frame2 (st st' : St) (op : Op) (h : step st op = some st') :
     dsimp only [Op.target]; apply filter_other_filter; intro e he
     simp only [bne_iff_ne, ne_eq]
     intro heq; rw [heq] at he; exact he rfl
+  | ctlCall m dl =>
+    simp only [step] at h
+    split at h <;> cases h <;> exact ⟨rfl, rfl⟩
 
 theorem run_frame2 (st : St) (ops : List Op) (m : Nat) (ht : ∀ op ∈ ops, op.target = m) :
     (run st ops).fx.filter (fun e => e.owner != m) = st.fx.filter (fun e => e.owner != m) ∧
